@@ -17,3 +17,9 @@ def fill(claim, NA):
         "Trusted: CrossHair+z3 string model; reference decoders/parsers in harness/ref_text.py, harness/C03_struct.py; bs4's verbatim emission of p.string (contract). Bounds: |line| <= 3 (+'&' prefix 4), <= 7 nodes, one text node per line.",
         "CrossHair symbolic execution + z3 over symbolic strings and node-kind selectors",
     )
+    claim(
+        "C04",
+        "Bounded symbolic check of the readers' text paths: for every cue text of the listed shapes (3 free code points; '&'+3+';'; '<'+1-2+'>' with and without annotation) the public WebVTT/SRT/MicroDVD read() yields the reference display text; DFXP/SAMI text leaves (incl. source line wraps) keep all words; SAMI stage-1 output for every listed reference followed by arbitrary data decodes exactly once under the stage-2 contract.",
+        "Trusted: CrossHair+z3 incl. repaired regex matcher; reference display/decoder functions in the harness; html.parser/lxml tokenisation as contracts. Bounds: text <= 3 free code points per shape; 8 named + all decimal 32..999 + 6 hex references.",
+        "CrossHair symbolic execution + z3 over symbolic strings",
+    )
